@@ -367,6 +367,17 @@ def t2_cases(ctx, real, per, tagseed, only=None, extreme=False):
                         cases.append((fn, [rnd(bx * zs), rnd(by * zs), rnd(sc)]))
                     else:
                         cases.append((fn, [rnd(bx / zs * 2.0 ** -1074), rnd(by / zs * 2.0 ** -1074), rnd(sc * 2.0 ** 1000)]))
+        if fn in ("div", "inv"):
+            # directed (seeded change C10-20): divisors whose squared modulus underflows / overflows in THIS configuration's format
+            # while the divisor, the dividend and the quotient are ordinary numbers of the format - in every width
+            for e in ((-64, -66, -68, -70, -73, -75, 62, 66) if real == 4 else (-512, -520, -530, -537, -540, 511, 520)):
+                for bx, by in ((3.0, 4.0), (1.0, 0.0), (0.0, -2.0), (-5.0, 12.0), (1.0, 1.0)):
+                    z0, z1 = rnd(bx * 2.0 ** e), rnd(by * 2.0 ** e)
+                    if fn == "inv":
+                        cases.append((fn, [z0, z1]))
+                    else:
+                        cases.append((fn, [1.0, 2.0, z0, z1]))
+                        cases.append((fn, [-3.0, 0.5, z0, z1]))
         if fn in ("pow_real", "pow") and real != 4:
             # directed: bases of very small and very large modulus (|z|^2 under- or overflows, z itself is an ordinary finite
             # non-zero number) with exponents that keep the result in range - "all finite arguments away from poles"
